@@ -15,7 +15,7 @@ func (e *Experiment) Execute(ctx context.Context, startGenome *genetics.Genome, 
 		return neat.ErrNEATOptionsNotFound
 	}
 
-	if e.Trials == nil {
+	if len(e.Trials) < opts.NumRuns {
 		e.Trials = make(Trials, opts.NumRuns)
 	}
 
